@@ -90,6 +90,9 @@ RevBound ==
   /\ (last'.o = "open" => Len(segs) > Len(CtxSegs("C")) - 1 /\ last'.s = Len(segs) /\ ~per.open /\ last.o = "write")
   /\ (per.open /\ per.parent[1] = MaxSegs => FALSE)      \* nothing after the reopening
 EmitRev == RevBound /\ EmitStep
+(* thorough tier: emit only the transitions at which C13 is observed (a revert, a written
+   segment, a reopening) — the others are prefixes of those *)
+EmitRevKey == RevBound /\ (last'.o \in {"revert", "open", "write", "create"} => EmitStep)
 (* bare fact perspectives over the canned contexts: open at any location, a few inserts and
    deletes, write_facts *)
 FactsBound == /\ Bound
